@@ -80,12 +80,12 @@ Definition quanto_unpack (ext_enabled : bool) (ext : option (tensor Z -> Z -> re
 
 (* PackedTensor.__torch_dispatch__ *)
 Record packed := Packed { p_data : tensor Z; p_bits : Z; p_size : list Z }.
-Inductive pop := Detach | ToCopy (dtype_is_uint8 : bool) | Other (f : tensor Z -> res (tensor Z)).
+Inductive pop := Detach | Clone | ToCopy (dtype_is_uint8 : bool) | Other (f : tensor Z -> res (tensor Z)).
 Inductive pres := RPacked (p : packed) | RPlain (t : tensor Z).
 
 Definition p_dispatch (kernel : tensor Z -> Z -> res (tensor Z)) (op : pop) (p : packed) : res pres :=
   match op with
-  | Detach => Ok (RPacked p)
+  | Detach | Clone => Ok (RPacked p)
   | ToCopy true => Ok (RPacked p)
   | ToCopy false => Err "ValueError"%string
   | Other f => u <- packed_unpack kernel (p_data p) (p_bits p) (p_size p) ;; r <- f u ;; Ok (RPlain r)
@@ -99,7 +99,7 @@ Definition pres_value (kernel : tensor Z -> Z -> res (tensor Z)) (r : pres) : re
 
 (* fingerprints of the hand-modelled parts of PackedTensor / the quanto:: op routing (see p_dispatch, quanto_unpack) *)
 Definition packed_prints : list (string * string) := [
-  ("__torch_dispatch__"%string, "6ff9e75129e945c0"%string);
+  ("__torch_dispatch__"%string, "3c039bf2d56d3ad1"%string);
   ("pack"%string, "f174e54655fc368a"%string);
   ("__new__"%string, "227c96a4aa7d681d"%string);
   ("__init__"%string, "fb20cf75568bdc59"%string);
